@@ -105,6 +105,9 @@ class C18(Check):
                    "RDAC peers are identified by IP (the handler's step table is keyed by IP)"]
 
     def preload(self):
+        from checks import c19
+
+        c19.preload_cotenant()
         import okdmr.dmrlib.protocols.hytera.p2p_datagram_protocol  # noqa
         import okdmr.dmrlib.protocols.hytera.rdac_datagram_protocol  # noqa
 
@@ -217,7 +220,12 @@ class C18(Check):
             if knobs["app_sets_out"] and w.random() < 0.15:
                 ops.append({"kind": "app_set_out", "t": round(t, 6), "addr": src, "out": [src[0], w.choice([P2P_PORT, 40009])]})
         ops.sort(key=lambda o: o["t"])
-        return {"knobs": knobs, "ops": ops, "dropped": dropped}
+        case = {"knobs": knobs, "ops": ops, "dropped": dropped}
+        if k.random() < 0.08:
+            from checks import c19
+
+            case["cotenant"] = c19.gen_cotenant(streams["cotenant"])
+        return case
 
     def _gen_exh(self, index, w):
         L, i = 1, index
@@ -268,6 +276,8 @@ class C18(Check):
                 "ops": [{kk: (o[kk][:40] if kk == "data" else o[kk]) for kk in o if kk in ("kind", "dst", "src", "data", "f", "snmp_fail")} for o in case["ops"][:8]]}
 
     def simplify(self, case):
+        if case.get("cotenant"):
+            yield {kk: v for kk, v in case.items() if kk != "cotenant"}
         for i, o in enumerate(case["ops"]):
             if o.get("snmp_fail"):
                 ops = list(case["ops"])
@@ -315,8 +325,16 @@ class C18(Check):
         active_ips = set()
         if case.get("dropped"):
             res.fault("drop", case["dropped"])
+        co = case.get("cotenant") or []
+        if co:
+            from checks import c19
+
+            c19.run_cotenant(co[: len(co) // 2])
+            res.fault("cotenant_library_calls", len(co))
 
         for i, op in enumerate(case["ops"]):
+            if co and i == len(case["ops"]) // 2:
+                c19.run_cotenant(co[len(co) // 2:])
             if op["kind"] == "handler_restart":
                 # the handler object is discarded and re-created on the same storage (volatile state lost; the storage survives)
                 if op["dst"] == "RDAC":
